@@ -15,6 +15,7 @@ import numpy as np
 import scipy.sparse as sps
 
 from mc.core import Outcome
+from mc.oracles.grpK_sparse import digest
 
 PROPERTY = "C37"
 LEVEL = "exploration"
@@ -38,6 +39,12 @@ ASSUMPTIONS = [
     "(not to be the finest decomposition)",
     "matrices with explicitly stored zeros inside the blocks form a separate sub-alphabet "
     "(violation tag explicit-zeros)",
+    "purity: the bitwise storage (data, indices, indptr, format, shape) of the matrix and the "
+    "permutation / size arrays must be unchanged by generate_permutation_to_block_diag_matrix, "
+    "invert_permuted_block_diag_matrix and invert_diagonal_blocks (none is documented in-place)",
+    "the permuted inverter is called with the computed permutation on a fresh equal matrix, on the "
+    "very object the permutation was generated from, with the constructed permutation, and (stored "
+    "zeros) with the permutation generated from the matrix without stored zeros",
 ]
 BOUNDS = {
     "quick": "inversion: all 59 compositions of n <= 6 (parts <= 4), all pattern assignments; "
@@ -246,16 +253,18 @@ def run_invert(case, out):
                             elif zins == "middle":
                                 sizes = sizes[: len(sizes) // 2] + [0] + sizes[len(sizes) // 2:]
                             A = to_sparse(B, stored, fmt, order)
+                            s_arg = np.array(sizes, dtype=np.int64)
+                            before = (digest(A), digest(s_arg))
                             det = dict(blocks=comp, patterns=list(pats), format=fmt, order=order, method=method,
                                        sizes=sizes, explicit_zeros_in_blocks=ez, matrix=B.tolist())
                             tag = "invert_diagonal_blocks" + ("/explicit-zeros" if ez else "")
                             try:
                                 if first and method != "python":
-                                    inv = mo.invert_diagonal_blocks(A, np.array(sizes, dtype=np.int64), method)
+                                    inv = mo.invert_diagonal_blocks(A, s_arg, method)
                                     first = False
                                 else:
                                     with _MemoNjit(mo):
-                                        inv = mo.invert_diagonal_blocks(A, np.array(sizes, dtype=np.int64), method)
+                                        inv = mo.invert_diagonal_blocks(A, s_arg, method)
                                 bad = None
                                 if not sps.issparse(inv):
                                     bad = "result is not sparse"
@@ -265,8 +274,8 @@ def run_invert(case, out):
                                         bad = "differs from numpy.linalg.inv by %.3g" % (float(np.max(np.abs(got - exp))) if got.shape == exp.shape else np.inf)
                                     else:
                                         worst = max(worst, float(np.max(np.abs(got - exp))))
-                                    if not _close(A.toarray(), B):
-                                        bad = "argument modified"
+                                    if (digest(A), digest(s_arg)) != before:
+                                        bad = "an argument was modified (storage digest changed)"
                             except Exception as e:  # noqa: BLE001
                                 bad = "raised " + repr(e)
                             cls = f"invert/{method}/{fmt}/{order}/{'ez' if ez else 'nz'}/" + "+".join(sorted(set(pats)))
@@ -327,6 +336,7 @@ def run_permuted(case, out):
                 A_dense = B[rp][:, cp]
                 exp = np.linalg.inv(A_dense)
                 ib = inblock[rp][:, cp]
+                clean_perm = None
                 for ez in (False, True):
                     stored = ib if ez else (A_dense != 0)
                     if ez and np.array_equal(stored, A_dense != 0):
@@ -334,19 +344,24 @@ def run_permuted(case, out):
                     # storage format alternates deterministically with the permutation
                     fmt = "csr" if (sum(rp[:2]) + sum(cp[:1])) % 2 == 0 else "csc"
                     order = "reversed" if (rp[0] + cp[-1]) % 2 else "sorted"
-                    A = to_sparse(A_dense, stored, fmt, order)
+                    A = A_gen = to_sparse(A_dense, stored, fmt, order)
                     det = dict(blocks=comp, patterns=list(pats), row_perm_of_construction=rp, col_perm_of_construction=cp,
                                format=fmt, order=order, explicit_zeros_in_blocks=ez, matrix=A_dense.tolist())
                     tagx = "/explicit-zeros" if ez else ""
                     nontrivial = rp != ident or cp != ident
                     key = ("perm", tuple(comp), pats, tuple(rp), tuple(cp), ez) if nontrivial else None
                     # 1. computed permutation exposes square blocks
+                    before = digest(A)
                     try:
                         r_, c_, sz = mo.generate_permutation_to_block_diag_matrix(A)
                         bad = _check_structure(A_dense, r_, c_, sz)
+                        if bad is None and digest(A) != before:
+                            bad = "the argument matrix was modified (storage digest changed)"
                     except Exception as e:  # noqa: BLE001
                         r_ = c_ = sz = None
                         bad = "raised " + repr(e)
+                    if not ez:
+                        clean_perm = None if (sz is None or bad) else (np.asarray(r_), np.asarray(c_), np.asarray(sz))
                     nblocks_true = sum(1 if p in ("dense", "lower", "perm") else s for s, p in zip(comp, pats))
                     cls = "generate/" + ("ez/" if ez else "") + (
                         "n/a" if sz is None else "finest" if len(sz) == nblocks_true else "coarser" if len(sz) < nblocks_true else "finer")
@@ -360,15 +375,27 @@ def run_permuted(case, out):
                     if sz is not None and not bad:
                         variants.append(("computed", np.asarray(r_), np.asarray(c_), np.asarray(sz)))
                     variants.append(("constructed", np.argsort(rp), np.argsort(cp), np.array(comp)))
+                    if ez and clean_perm is not None:
+                        # permutation generated from the matrix with the same non-zeros but no stored
+                        # zeros, reused for this one
+                        variants.append(("reused", *clean_perm))
+                    if sz is not None and not bad:
+                        # the very object the permutation was generated from
+                        variants.append(("same-object", np.asarray(r_), np.asarray(c_), np.asarray(sz)))
                     for vname, vr, vc, vs in variants:
-                        A = to_sparse(A_dense, stored, fmt, order)
+                        if vname != "same-object":
+                            A = to_sparse(A_dense, stored, fmt, order)
+                        else:
+                            A = A_gen
+                        vs64 = vs.astype(np.int64)
+                        before = (digest(A), digest(vr), digest(vc), digest(vs64))
                         try:
                             if first:
-                                inv = mo.invert_permuted_block_diag_matrix(A, vr, vc, vs.astype(np.int64))
+                                inv = mo.invert_permuted_block_diag_matrix(A, vr, vc, vs64)
                                 first = False
                             else:
                                 with _MemoNjit(mo):
-                                    inv = mo.invert_permuted_block_diag_matrix(A, vr, vc, vs.astype(np.int64))
+                                    inv = mo.invert_permuted_block_diag_matrix(A, vr, vc, vs64)
                             bad = None
                             if not sps.issparse(inv):
                                 bad = "result is not sparse"
@@ -376,8 +403,8 @@ def run_permuted(case, out):
                                 got = inv.toarray()
                                 if not _close(got, exp):
                                     bad = "differs from numpy.linalg.inv by %.3g" % (float(np.max(np.abs(got - exp))) if got.shape == exp.shape else np.inf)
-                                elif not _close(A.toarray(), A_dense):
-                                    bad = "argument modified"
+                                elif (digest(A), digest(vr), digest(vc), digest(vs64)) != before:
+                                    bad = "an argument was modified (storage digest changed)"
                         except Exception as e:  # noqa: BLE001
                             bad = "raised " + repr(e)[:300]
                         cls = f"invert_permuted/{vname}/{fmt}/" + ("ez" if ez else "nz")
@@ -401,7 +428,6 @@ def run_case(case) -> Outcome:
 
 
 def known_finding(case, viol):
-    tag = viol.get("tag", "")
-    if tag.endswith("/explicit-zeros") and tag.startswith("invert_permuted/computed"):
-        return "C37-explicit-zeros-in-blocks"
+    # The stored-zeros defect (tag invert_permuted/computed/explicit-zeros) is fixed in /repo
+    # (3207d0e7a); nothing is masked any more.
     return None
